@@ -67,6 +67,28 @@ def templates(rng, thorough):
         B = IR.func("B", ["a"], ["b"])
         W = IR.normalize_node(dict(name="W", kind="func", inputs=["x"], outputs=["w"], wait_for=["gs"]))
         out.append((IR.prog("top", [W, A, G, B]), [["x", "in.x"]], f"gate-emits/{'open' if dopen else 'closed'}"))
+    # an INTERRUPT that emits the signal: answered by its handler, or answered by the caller (resume path)
+    for pos in (0, 1):
+        I = IR.interrupt("I", ["x"], ["ans", "asked"], ndata=1)
+        W = IR.normalize_node(dict(name="W", kind="func", inputs=["y"], outputs=["w"], wait_for=["asked"]))
+        nodes = [I, W] if pos == 0 else [W, I]
+        out.append((IR.prog("top", nodes), [["x", "in.x"], ["y", "in.y"]], f"interrupt-emits/handler/o{pos}"))
+        out.append((IR.prog("top", nodes), [["x", "in.x"], ["y", "in.y"], ["ans", "ans.I.ans"]], f"interrupt-emits/resumed/o{pos}"))
+    # one signal with SEVERAL producers: two exclusive gate targets of a counting loop both emit `worked`; the
+    # waiter's data input arrives through a chain, so that it becomes eligible exactly when a producer is about to run again
+    for chain in (1, 2, 3):
+        for first in (False, True):
+            script = [["work_a"], ["work_b"], ["work_a"], ["END"]]
+            D = IR.route("decide", ["n"], ["work_a", "work_b", "END"], script)
+            A = IR.normalize_node(dict(name="work_a", kind="func", inputs=["n"], outputs=["n", "worked"], ndata=1))
+            B = IR.normalize_node(dict(name="work_b", kind="func", inputs=["n"], outputs=["n", "worked"], ndata=1))
+            ch, prev = [], "n"
+            for i in range(chain):
+                ch.append(IR.func(f"stage{i}", [prev], [f"s{i}"]))
+                prev = f"s{i}"
+            R = IR.normalize_node(dict(name="report", kind="func", inputs=[prev], outputs=["reported"], wait_for=["worked"]))
+            nodes = ([R] if first else []) + [D, A, B] + ch + ([] if first else [R])
+            out.append((IR.prog("top", nodes, max_iter=30), [["n", "in.n"]], f"two-producers/chain{chain}/{'waiter-first' if first else 'waiter-last'}"))
     # chat-loop shape: waiter is the gate (liveness half), n continue decisions
     for n in range(0, 5 if thorough else 4):
         for m in (1, 2):
@@ -175,7 +197,7 @@ def run(tier, seed):
     ctx.sample({"job": mid, "observed_calls": [c["path"] for c in reals[mid["id"]].get("calls", [])]})
     ctx.assumptions += ["a production is a completed invocation of a node that lists the awaited name among its outputs",
                         "safety half: TLC monitor on model runs (invariant) and on recorded real call logs (TraceL1); liveness half: waiter invocation counts and (producer, waiter) order projections equal the engine model's, loop templates as in C04"]
-    return ctx.finish(rule="signal templates (producer/waiter in either list order, signal or data name, 1-2 waiters, emitting gate, documented chat loop with 0..4 iterations) on both runners + seeded random programs with emit/wait_for pairs, gates and cycles; HGSteps: every gate-decision / failure combination of small signal programs explored by TLC with the monitor as invariant, every terminal behaviour replayed; distinct = structural hash of (program, provided, runner)")
+    return ctx.finish(rule="signal templates (producer/waiter in either list order, signal or data name, 1-2 waiters, emitting gate, emitting interrupt answered by handler / by the caller, a signal with two exclusive producers in a counting loop, documented chat loop with 0..4 iterations) on both runners + seeded random programs with emit/wait_for pairs, gates and cycles; HGSteps: every gate-decision / failure combination of small signal programs explored by TLC with the monitor as invariant, every terminal behaviour replayed; distinct = structural hash of (program, provided, runner)")
 
 
 def replay(path):
